@@ -862,9 +862,9 @@ func runC06(c *Ctx) {
 	if os.Getenv("C06_CORPUS_ONLY") != "" { // reproduction of the recorded defects on a pre-repair tree (random runs build cyclic values there)
 		return
 	}
-	k, nRandom, maxOps := 2, 1500, 14
+	k, nRandom, maxOps := 2, 5000, 14
 	if c.Thorough() {
-		k, nRandom, maxOps = 3, 60000, 16
+		k, nRandom, maxOps = 3, 150000, 16
 	}
 	n := c06Exhaustive(c, k)
 	c.Extra["exhaustive"] = true
